@@ -29,7 +29,7 @@ import (
 // ALIGNED.
 
 func init() {
-	Register(&Rule{ID: "R-SRT-5", Props: []string{"C07", "C17"}, Floor: 3,
+	Register(&Rule{ID: "R-SRT-5", Props: []string{"C07", "C17", "C04"}, Floor: 3,
 		Doc:      "the per-row sort-value caches of a View stay aligned with its rows: along the SELECT pipeline (selectEntity → View.Select → OrderBy → Offset → Limit, followed through every function and closure that receives the view) a typestate analysis tracks, per cache field, nil / aligned / shifted / stale; whenever RecordSet is replaced or its rows are shifted the cache must be dropped or shifted by the same amount before anything reads it (ORDER BY reads the per-cell cache left by analytic functions and DISTINCT, LIMIT … WITH TIES reads the per-record keys after OFFSET)",
 		Controls: []string{"CtlCacheShiftOnlyRows", "CtlCacheKeptAfterReplace"},
 		Run:      ruleSrt5})
